@@ -598,4 +598,54 @@ theorem roa_entry_origin (i : AnalyseInput) (s : List Ann) (entries : List Entry
     rw [toEntry_subject] at hrc; cases hrc
 
 
+theorem filterMap_of_subject_inl (es : List Entry) (l : List RoaConf)
+    (h : es.map (·.subject) = l.map Sum.inl) :
+    es.filterMap (·.roaConf?) = l ∧ es.filterMap (·.ann?) = [] := by
+  induction es generalizing l with
+  | nil => cases l <;> simp_all
+  | cons e es ih =>
+    cases l with
+    | nil => simp at h
+    | cons r rest =>
+      simp only [List.map_cons, List.cons.injEq] at h
+      obtain ⟨i1, i2⟩ := ih rest h.2
+      constructor
+      · rw [List.filterMap_cons]
+        have : e.roaConf? = some r := by unfold Entry.roaConf?; rw [h.1]
+        rw [this, i1]
+      · rw [List.filterMap_cons]
+        have : e.ann? = none := by unfold Entry.ann?; rw [h.1]
+        rw [this, i2]
+
+theorem filterMap_of_subject_inr (es : List Entry) (l : List Ann)
+    (h : es.map (·.subject) = l.map Sum.inr) :
+    es.filterMap (·.ann?) = l ∧ es.filterMap (·.roaConf?) = [] := by
+  induction es generalizing l with
+  | nil => cases l <;> simp_all
+  | cons e es ih =>
+    cases l with
+    | nil => simp at h
+    | cons r rest =>
+      simp only [List.map_cons, List.cons.injEq] at h
+      obtain ⟨i1, i2⟩ := ih rest h.2
+      constructor
+      · rw [List.filterMap_cons]
+        have : e.ann? = some r := by unfold Entry.ann?; rw [h.1]
+        rw [this, i1]
+      · rw [List.filterMap_cons]
+        have : e.roaConf? = none := by unfold Entry.roaConf?; rw [h.1]
+        rw [this, i2]
+
+theorem subjects_of_map_some {α} (f : α → Option Entry) (g : α → Sum RoaConf Ann)
+    (hf : ∀ x e, f x = some e → e.subject = g x) (l : List α) (es : List Entry)
+    (h : l.map f = es.map some) : es.map (·.subject) = l.map g := by
+  induction l generalizing es with
+  | nil => cases es <;> simp_all
+  | cons x rest ih =>
+    cases es with
+    | nil => simp at h
+    | cons e es' =>
+      simp only [List.map_cons, List.cons.injEq] at h ⊢
+      exact ⟨hf x e h.1, ih es' h.2⟩
+
 end KM.Bgp
